@@ -1065,6 +1065,11 @@ fn check_reads(sess: &Sess, i: usize, p: NodePtr, t: &T, rep: &mut OracleReport,
         if sess.a.number(p) != v {
             rep.fail("number", format!("slot {i}: number {} expected {} for {}; {}", sess.a.number(p), v, hex_or_dash(b), ctx()));
         }
+        // the second big-integer view of the same atom
+        let m = sess.a.malachite_number(p);
+        if m != clvmr::number::malachite_number_from_u8(b) || m.to_string() != v.to_string() {
+            rep.fail("number", format!("slot {i}: malachite_number {} expected {} for {}; {}", m, v, hex_or_dash(b), ctx()));
+        }
         match sess.a.node(p) {
             NodeVisitor::Buffer(x) if x == &b[..] => {}
             NodeVisitor::U32(x) if Some(x) == expect => {}
@@ -1214,6 +1219,7 @@ fn int_oracle(rng: &mut Rng, n: usize, rep: &mut OracleReport) {
         let mut a = Allocator::new();
         let enc = min_enc(&v);
         let mut nodes = vec![("new_number", a.new_number(v.clone()).unwrap())];
+        nodes.push(("new_malachite_number", a.new_malachite_number(clvmr::number::malachite_number_from_u8(&enc)).unwrap()));
         if let Ok(x) = u64::try_from(&v) {
             nodes.push(("new_u64", a.new_u64(x).unwrap()));
         }
